@@ -363,7 +363,7 @@ fn mode_interleave(rng: &mut Rng, n_cases: u64, max_len: u64, noise_keys: u64, d
         let n = rng.range(2, max_len as i64) as usize;
         let nnoise = if rng.chance(1, 3) { noise_keys } else { *rng.pick(&[1u64, 3, 40]) };
         // victims use key ids 0..17 (the special strings: empty, 64 KiB, one byte apart, non-ASCII)
-        let vkeys: Vec<u64> = match rng.below(3) { 0 => vec![10, 11, 0], 1 => vec![5, 6, 15], _ => vec![1, 3, 4] };
+        let vkeys: Vec<u64> = match rng.below(5) { 0 => vec![10, 11, 0], 1 => vec![5, 6, 15], 2 => vec![8, 7, 18], 3 => vec![0, 17, 7], _ => vec![1, 3, 4] };
         let mut steps: Vec<Step> = Vec::new();
         let mut viol: Vec<Viol> = Vec::new();
         let mut fresh_noise = 0u64;
